@@ -24,6 +24,7 @@
  *   CUTS <maxAll>                every proper prefix (all k when the stream is <= maxAll bytes, else section boundaries +-1):
  *                                single-call decode must fail, streaming decode must never return 0 for the last frame
  *   FLIPSUM                      each bit of the stored checksum of the last frame flipped: decoding must fail
+ *   FCSLIE                       the content-size field of the last frame altered (smaller / larger): every decoder must fail
  */
 #define ZSTD_STATIC_LINKING_ONLY
 #define ZBUFF_STATIC_LINKING_ONLY
@@ -324,6 +325,26 @@ int main(int argc, char** argv) {
                         fprintf(T, "{\"e\":\"flipsum\",\"bit\":%d,\"oneshotOK\":%s,\"streamDone\":false,\"streamErr\":true,\"afterIgnoreAndReset\":%d,\"ignoredOK\":%s}\n", bit, ZSTD_isError(rb) ? "false" : "true", kind, ZSTD_isError(ra) ? "false" : "true");
                         ZSTD_freeDCtx(d3); } }
                 free(out); ZSTD_freeDCtx(dd); } }
+        else if (!strcmp(cmd, "FCSLIE")) {   /* the content-size field of the last frame is made to announce another size: every decoder must report an error */
+            size_t at = 0; finfo f, lastf; int have = 0; int di; static const long deltas[] = { -1, 1, -4096, 4096, -70000, 300000 };
+            while (at < compSize && walk(comp, compSize, at, &f, cFormat()) == 0) { lastf = f; have = 1; at = f.end; }
+            if (have && !lastf.skippable && lastf.fcs >= 0) { size_t p = lastf.start + (cFormat() ? 0 : 4); unsigned fhd = comp[p]; int fcsCode = fhd >> 6, single = (fhd >> 5) & 1, dictCode = fhd & 3; int fb = fcsCode == 0 ? (single ? 1 : 0) : fcsCode == 1 ? 2 : fcsCode == 2 ? 4 : 8;
+                static const int db[4] = { 0, 1, 2, 4 }; size_t fpos = p + 1 + (single ? 0 : 1) + db[dictCode]; unsigned char saved[8]; memcpy(saved, comp + fpos, 8 < compSize - fpos ? 8 : compSize - fpos);
+                for (di = 0; di < 6 && fb > 0; di++) { long long nv = lastf.fcs + deltas[di]; unsigned long long stored; int k; unsigned char* out; size_t cap, r, r2 = 0; ZSTD_DCtx* dd; size_t ip = lastf.start, op = 0; int guard = 0, serr = 0, sdone = 0, cdone = 0, cerr = 0;
+                    if (nv < 0) continue; if (fb == 1 && nv > 255) continue; if (fb == 2 && (nv < 256 || nv > 65791)) continue; if (fb == 4 && nv > 0xFFFFFFFFLL) continue;
+                    stored = (unsigned long long)nv - (fb == 2 ? 256 : 0); for (k = 0; k < fb; k++) comp[fpos + k] = (unsigned char)(stored >> (8 * k));
+                    cap = (size_t)(lastf.fcs > nv ? lastf.fcs : nv) + 70000; out = (unsigned char*)malloc(cap); dd = ZSTD_createDCtx(); ZSTD_DCtx_setParameter(dd, ZSTD_d_format, cFormat()); ZSTD_DCtx_setParameter(dd, ZSTD_d_windowLogMax, 30);
+                    r = ZSTD_decompressDCtx(dd, out, cap, comp + lastf.start, lastf.end - lastf.start);
+                    /* streaming, whole frame offered, roomy output */
+                    ZSTD_DCtx_reset(dd, ZSTD_reset_session_only);
+                    while (guard++ < 100000) { ZSTD_inBuffer ib; ZSTD_outBuffer ob; size_t i0 = ip, o0 = op; ib.src = comp; ib.size = lastf.end; ib.pos = ip; ob.dst = out; ob.size = cap; ob.pos = op;
+                        r2 = ZSTD_decompressStream(dd, &ob, &ib); ip = ib.pos; op = ob.pos; if (ZSTD_isError(r2)) { serr = 1; break; } if (r2 == 0 && ip == lastf.end) { sdone = 1; break; } if (ip == i0 && op == o0) break; }
+                    /* streaming in pieces: input slices of 1000 bytes, output pieces of 3000 bytes (no single-pass shortcut, the internal buffers are used) */
+                    ZSTD_DCtx_reset(dd, ZSTD_reset_session_only); ip = lastf.start; guard = 0;
+                    while (guard++ < 4000000) { ZSTD_inBuffer ib; ZSTD_outBuffer ob; size_t lim = ip + 1000 > lastf.end ? lastf.end : ip + 1000; ib.src = comp; ib.size = lim; ib.pos = ip; ob.dst = out; ob.size = 3000; ob.pos = 0;
+                        r2 = ZSTD_decompressStream(dd, &ob, &ib); if (ZSTD_isError(r2)) { cerr = 1; break; } if (r2 == 0 && ib.pos == lastf.end) { cdone = 1; break; } if (ib.pos == ip && ob.pos == 0 && lim == lastf.end) break; ip = ib.pos; }
+                    fprintf(T, "{\"e\":\"fcslie\",\"delta\":%ld,\"fcs\":%lld,\"oneshotOK\":%s,\"streamDone\":%s,\"streamErr\":%s,\"chunkDone\":%s,\"chunkErr\":%s}\n", deltas[di], lastf.fcs, ZSTD_isError(r) ? "false" : "true", sdone ? "true" : "false", serr ? "true" : "false", cdone ? "true" : "false", cerr ? "true" : "false");
+                    free(out); ZSTD_freeDCtx(dd); memcpy(comp + fpos, saved, 8 < compSize - fpos ? 8 : compSize - fpos); } } }
         else if (!strcmp(cmd, "TRAIL")) {   /* complete frames followed by n bytes that are not a frame: single-call decoding must fail */
             size_t nb = (size_t)atol(a); unsigned char* in = (unsigned char*)malloc(compSize + nb); unsigned char* out = (unsigned char*)malloc(srcSize + 64); size_t r; ZSTD_DCtx* dd = ZSTD_createDCtx(); size_t i;
             memcpy(in, comp, compSize); for (i = 0; i < nb; i++) in[compSize + i] = (unsigned char)(0xA5 + 31 * i + atoi(b));
